@@ -287,8 +287,9 @@ func pages(input OmegaInput) (output OmegaOutput) {
 		}
 	}
 
-	// otherwise if p < 16 or p + c >= 2^32 / ZP or i in N_p...+c : (u_A)_i = nil
-	if r > 4 || p < 16 || p+c >= (1<<32)/ZP {
+	// otherwise if r > 4 or p < 16 or p + c >= 2^32 / ZP (over the naturals: no wrap-around)
+	const pageCount = (1 << 32) / ZP
+	if r > 4 || p < 16 || p >= pageCount || c >= pageCount || p+c >= pageCount {
 		input.VM.Registers[7] = HUH
 		return OmegaOutput{
 			ExitReason: ExitContinue,
@@ -296,42 +297,36 @@ func pages(input OmegaInput) (output OmegaOutput) {
 		}
 	}
 
-	if r > 2 && !isReadable(p, c, input.Addition.IntegratedPVMMap[n].Memory) {
-		input.VM.Registers[7] = HUH
-		return OmegaOutput{
-			ExitReason: ExitContinue,
-			Addition:   input.Addition,
+	mem := input.Addition.IntegratedPVMMap[n].Memory // shares the page map with m[n]
+
+	// otherwise if r > 2 and some page in p...+c is inaccessible: its contents cannot be kept
+	if r > 2 {
+		for i := uint32(p); i < uint32(p+c); i++ {
+			if mem.GetPageAccess(i) == MemoryInaccessible {
+				input.VM.Registers[7] = HUH
+				return OmegaOutput{
+					ExitReason: ExitContinue,
+					Addition:   input.Addition,
+				}
+			}
 		}
 	}
 
 	// otherwise : ok
-	// u_v
-	if r >= 3 {
-		for i := uint32(p); i < uint32(p+c); i++ {
-			input.Addition.IntegratedPVMMap[n].Memory.Pages[i] = &Page{
-				Value:  make([]byte, ZP),
-				Access: MemoryInaccessible,
-			}
+	// u_v: contents are zeroed for r < 3 and kept for r = 3, 4
+	// u_a: inaccessible (r = 0), read-only (r = 1, 3), read-write (r = 2, 4)
+	access := [5]MemoryAccess{MemoryInaccessible, MemoryReadOnly, MemoryReadWrite, MemoryReadOnly, MemoryReadWrite}[r]
+	for i := uint32(p); i < uint32(p+c); i++ {
+		if r == 0 {
+			delete(mem.Pages, i)
+			continue
 		}
-	}
-
-	// u_a
-	if r == 1 || r == 3 {
-		for i := uint32(p); i < uint32(p+c); i++ {
-			input.Addition.IntegratedPVMMap[n].Memory.Pages[i] = &Page{
-				Value:  make([]byte, ZP),
-				Access: MemoryReadOnly,
-			}
+		page, exists := mem.Pages[i]
+		if !exists || r < 3 {
+			page = &Page{Value: make([]byte, ZP)}
+			mem.Pages[i] = page
 		}
-	}
-
-	if r == 2 || r == 4 {
-		for i := uint32(p); i < uint32(p+c); i++ {
-			input.Addition.IntegratedPVMMap[n].Memory.Pages[i] = &Page{
-				Value:  make([]byte, ZP),
-				Access: MemoryReadWrite,
-			}
-		}
+		page.Access = access
 	}
 
 	input.VM.Registers[7] = OK
